@@ -7,7 +7,9 @@ ID = "C03"
 LEVEL = "exploration"
 ORACLES = ("wcag", "oklab", "cielab", "ciede2000")
 RULE = ("stratified acceptance sampling: background OKLCH lightness class (dark/mid/light) x text side (lighter/darker) x "
-        "(large,very_readable); text steered to a ratio in [0.86,1.0)x minimum; an independent scan of the text's lightness line "
+        "(large,very_readable), plus fixed-text draws (a quarter: text with a channel in the sRGB toe, near-black / dark red-brown, or a CSS keyword "
+        "colour is kept and the background steered); "
+        "text steered to a ratio in [0.86,1.0)x minimum; an independent scan of the text's lightness line "
         "(own OKLCH, L stepped by 1/4096 both ways, own clip+round, own CIEDE2000 <= 1.5, own ratio >= min+0.05) decides whether a "
         "witness exists. Obligation on witness pairs only: success in modes 0,1,2 and own dE(original, returned) <= 2.0+0.05; a third of the "
         "obligations are repeated through the bulk API and with the pair written in another accepted spelling (every opaque form; translucent "
